@@ -677,6 +677,10 @@ def observe(q, case, drop_xerr=False, full=True, use_range=True):
                     arr = r.fit_function(np.array(xs))
                     out["fit_array" + sfx] = [[float(v.value), float(v.error)] for v in arr]
                     out["fit_array_type" + sfx] = type(arr).__name__
+                    # scalars of the other numeric types: numpy floats, and ints where x is one
+                    other = [r.fit_function(int(x) if float(x).is_integer() and abs(x) < 2 ** 53
+                                            else np.float64(x)) for x in xs]
+                    out["fit_npscalar" + sfx] = [[float(v.value), float(v.error)] for v in other]
                 if case.get("hist") and case.get("hist_first"):
                     pass        # nothing evaluated before the history
                 else:
@@ -684,8 +688,17 @@ def observe(q, case, drop_xerr=False, full=True, use_range=True):
                 if case.get("hist"):
                     run_hist(q, r, case, holder, out)
                     evaluate("@after")
+                    # the rest of the result is read again as well: nothing in it may have moved
+                    out["chi2@after"] = float(r.chi_squared)
+                    out["res@after"] = [[float(v.value), float(v.error)] for v in r.residuals]
+                    out["perr@after"] = [float(p.error) for p in r.params]
+                    out["popt@after"] = [float(p.value) for p in r.params]
+                    out["regcorr@after"] = [[float(q.get_correlation(r[i], r[j])) for j in range(m)]
+                                            for i in range(m)]
+                    out["str@after"] = str(r)
                     if case.get("hist_first"):
-                        for k in ("fit", "fit_list", "fit_list_type", "fit_array", "fit_array_type"):
+                        for k in ("fit", "fit_list", "fit_list_type", "fit_array", "fit_array_type",
+                                  "fit_npscalar"):
                             out[k] = out[k + "@after"]
         except Exception as e:  # noqa: BLE001
             out["exception"] = "{}: {}".format(type(e).__name__, e)
